@@ -141,6 +141,7 @@ def sameDesc (a b : Val) : Bool :=
   | .zstk _ => false
   | .zcnd _ => false
   | .anys _ => false
+  | .opv _ => false
 termination_by structural a
 
 def sameVals (xs ys : List Val) : Bool :=
@@ -237,6 +238,7 @@ def inDomain (a : Val) : Bool :=
   | .zstk _ => false
   | .zcnd _ => false
   | .anys _ => false
+  | .opv _ => false
 termination_by structural a
 
 def inDomainL (xs : List Val) : Bool :=
